@@ -45,18 +45,25 @@ def r1_rollback(ctx):
         R.check(len(writes) == (2 if name == "insert_named" else 1), "C20.R1", "%s:writes" % name, "%s serialises %s into the buffer" % (name, "the name and the value" if name == "insert_named" else "the value"), "%s has %d to_writer sites" % (name, len(writes)), "%s:%d" % (b.file, b.lo))
         trunc = b.calls_to(r"Vec::<.*>::truncate$")
         R.check(len(trunc) >= 1, "C20.R1", "%s:has-rollback" % name, "%s rolls the buffer back on error" % name, "%s never truncates the buffer: after a Serialize impl fails midway the partial bytes stay and build() emits invalid JSON (and panics on it)" % name, "%s:%d" % (b.file, b.lo))
-        # error exits: blocks that assign _0 = Err(..)
-        errs = [bi for bi, blk in enumerate(b.blocks) for st in blk["st"] if st["s"] == "assign" and st["pl"]["l"] == 0 and not st["pl"].get("p") and st["rv"]["k"] == "agg" and st["rv"].get("variant") == "Err" and bi in b.reachable]
-        errs += [c.bb for c in b.calls_to(r"FromResidual.*::from_residual$") if c.dest is not None and c.dest["l"] == 0 and c.bb in b.reachable]
-        R.check(bool(errs), "C20.R1", "%s:reports-error" % name, "%s reports the serialisation error" % name, "%s has no error exit" % name, "%s:%d" % (b.file, b.lo))
+        # failure arms: wherever the outcome of a serialisation (a Result<(), serde_json::Error>) is found to be Err -
+        # by match / if let / `?` / is_ok() / is_err()
+        from .common import result_outcome_arms
+        oks, errs = result_outcome_arms(b, lambda ty: ty.startswith("std::result::Result<(), serde_json::Error>"))
+        errs = sorted(errs)
+        R.check(bool(errs), "C20.R1", "%s:reports-error" % name, "%s inspects the outcome of the serialisation" % name, "%s never looks at the outcome of the serialisation (no failure arm)" % name, "%s:%d" % (b.file, b.lo))
+        exits_ = {bi for bi, blk in enumerate(b.blocks) if blk["term"] and blk["term"]["t"] == "return"}
+        okret = {bi for bi, blk in enumerate(b.blocks) if bi in b.reachable for st in blk["st"] if st["s"] == "assign" and st["pl"]["l"] == 0 and not st["pl"].get("p") and st["rv"]["k"] == "agg" and st["rv"].get("variant") == "Ok"}
+        swallowed = [e for e in errs if (b.reach_from(e) | {e}) & okret]
+        R.check(not swallowed, "C20.R1", "%s:failure-is-reported" % name, "a failed serialisation is returned as an error", "%s can return Ok(..) after the serialisation failed" % name, "%s:%d" % (b.file, block_line(b, swallowed[0]) if swallowed else b.lo))
         first_write = None
         for c in b.calls:
             if re.search(r"to_writer$|Result::<.*>::and_then$|ParamsBuilder::maybe_initialize$", c.name() or ""):
                 if first_write is None or b.dominates(c.bb, first_write.bb):
                     first_write = c
+        tb = {t.bb for t in trunc}
         for e in errs:
-            ok = any(b.dominates(t.bb, e) for t in trunc)
-            R.check(ok, "C20.R1", "%s:error-exit-rolled-back@%d" % (name, errs.index(e)), "every error exit of %s passes the truncation" % name, "%s can return an error without rolling the buffer back" % name, "%s:%d" % (b.file, block_line(b, e)))
+            ok = e in tb or flow.all_paths_pass(b, e, tb, exits_)
+            R.check(ok, "C20.R1", "%s:error-exit-rolled-back@%d" % (name, errs.index(e)), "every failure arm of %s passes the truncation" % name, "%s can return an error without rolling the buffer back" % name, "%s:%d" % (b.file, block_line(b, e)))
         # the truncation length was recorded before anything was written (incl. the opening token)
         for t in trunc:
             lv = tr.origins(b, t.args[1])
@@ -77,7 +84,7 @@ def r1_rollback(ctx):
                 seps.append(c)
         R.check(len(seps) == 1, "C20.R1", "%s:one-separator" % name, "%s appends one separator" % name, "%s appends %d separators" % (name, len(seps)), "%s:%d" % (b.file, b.lo))
         for s_ in seps:
-            R.check(all(not b.can_reach(s_.bb, e) for e in errs) and all(not b.dominates(t.bb, s_.bb) for t in trunc), "C20.R1", "%s:separator-on-success-only" % name, "the separator is written only after the value was serialised successfully", "%s writes the separator on a path that still fails or was rolled back" % name, where(s_))
+            R.check(all(s_.bb not in (b.reach_from(e) | {e}) for e in errs) and all(not b.can_reach(s_.bb, e) for e in errs) and all(not b.dominates(t.bb, s_.bb) for t in trunc), "C20.R1", "%s:separator-on-success-only" % name, "the separator is written only after the value was serialised successfully", "%s writes the separator on a path that still fails or was rolled back" % name, where(s_))
         # writers target the builder's own buffer
         for x, c in writes:
             lv = tr.origins(x, c.args[0])
